@@ -28,7 +28,7 @@ REAL = ['py4hw.logic.arithmetic_fp (FPAdder_SP, FPMult_SP, InttoFP_SP, FPtoInt_S
 STUB = ['stimulus']
 ASSUMPTIONS = ['domain: finite normal operands; adder/multiplier only where the exact result is normal (non-zero, exponent in range)',
                'ulp of a value v = 2**(floor(log2|v|) - 23)']
-PROBES = ['add_gap_ge_24', 'add_gap_ge_32', 'add_cancellation', 'mul_exact_normal', 'cmp_equal', 'i2f_exact', 'i2f_lost', 'f2i_exact_odd',
+PROBES = ['settled_by_clk0', 'block_added_after_simulation', 'add_gap_ge_24', 'add_gap_ge_32', 'add_cancellation', 'mul_exact_normal', 'cmp_equal', 'i2f_exact', 'i2f_lost', 'f2i_exact_odd',
           'f2i_fraction', 'f2i_invalid', 'f2i_small']
 
 MANT = [0, 1, 0x400000, 0x7FFFFE, 0x7FFFFF]
@@ -108,7 +108,8 @@ def gen(rs, tier, index):
             vecs.append([mk(sr.getrandbits(1), e, sr.choice(MANT + [0x200000, 0x600000]) if sr.random() < 0.6 else sr.getrandbits(23))])
     fr = rs.get('faults')
     steps = [{'vec': v, 'faults': [f for f in ('resort', 'sim_restart', 'extra_settle') if fr.random() < 0.05]} for v in vecs]
-    return {'blk': blk, 'steps': steps, 'perm': rs.sub('perm') if fr.random() < 0.7 else None, 'inregs': rng.random() < 0.5}
+    return {'blk': blk, 'steps': steps, 'perm': rs.sub('perm') if fr.random() < 0.7 else None, 'inregs': rng.random() < 0.5,
+            'settle': fr.choice(['clk1', 'clk1', 'clk0', 'prop']), 'late_dut': fr.random() < 0.2}
 
 
 def build(scn):
@@ -122,6 +123,10 @@ def build(scn):
         for i in range(nin):
             py4hw.Reg(hw, 'inreg%d' % i, ins[i], feed[i])
     outs = {}
+    if scn.get('late_dut'):
+        # the simulator exists and has run before the block under test is instantiated
+        with quiet():
+            hw.getSimulator().clk(2)
     with quiet():
         if blk == 'add':
             outs['r'] = hw.wire('r', 32)
@@ -264,11 +269,22 @@ def run(scn, log, st):
         sim = hw.getSimulator()
     indomain = 0
 
+    how = scn.get('settle', 'clk1') if not scn['inregs'] else 'clk1'
+    if scn.get('late_dut'):
+        st.fault('late_add')
+        st.probe('block_added_after_simulation')
+
     def apply(vec):
         for w, v in zip(ins, vec):
             w.put(v)
         with quiet():
-            sim.clk(1)
+            if how == 'clk0':
+                sim.clk(0)              # settle only, no edge
+                st.probe('settled_by_clk0')
+            elif how == 'prop':
+                sim.propagateAll()
+            else:
+                sim.clk(1)
         return {k: w.get() for k, w in outs.items()}
     for si, step in enumerate(scn['steps'], 1):
         for f in step['faults']:
